@@ -72,12 +72,17 @@ def _acl_text_for(rng, trees):
     """ACL over the first words of the rows: overlapping rules for the same block head ('w ~' and 'w */[A-Za-z].*/'),
     each listing the first words of the child rows with independently drawn %cant_delete flags, so that which rule
     (and which merged child) governs a row depends on the row -- and must not depend on what was matched before"""
-    firsts, kids = [], {}
+    firsts, kids, seconds = [], {}, {}
     for t in trees:
         for row, sub in t.items():
-            w = row.split()[0]
+            ws = row.split()
+            if ws[0] in ("undo", "no") and len(ws) > 1:
+                ws = ws[1:]                  # a negated row is covered through the reverse form of the rule for its command
+            w = ws[0]
             if not w.replace("-", "").isidentifier():
                 continue
+            if len(ws) > 2 and ws[1].replace("-", "").isidentifier() and ws[1] not in seconds.setdefault(w, []):
+                seconds[w].append(ws[1])
             if w not in firsts:
                 firsts.append(w)
             for crow in sub:
@@ -93,6 +98,12 @@ def _acl_text_for(rng, trees):
         variants = ["%s ~" % w]
         if kids.get(w) and rng.random() < 0.7:
             variants.append("%s */[A-Za-z].*/" % w)
+        # close, overlapping rules of equal priority: 'w second ~' next to 'w *'
+        for sw in seconds.get(w, [])[:3]:
+            if rng.random() < 0.5:
+                lines.append("%s %s ~%s" % (w, sw, rng.choice(["", " %cant_delete=1"])))
+        if seconds.get(w) and rng.random() < 0.7:
+            lines.append("%s *%s" % (w, rng.choice(["", " %cant_delete=1", " %cant_delete=0"])))
         for pat in variants:
             lines.append("%s%s" % (pat, cd))
             for cw in kids.get(w, [])[:6]:
@@ -127,6 +138,10 @@ def build_jobs():
             old, new = (s["old"], s["new"]) if direction == "fwd" else (s["new"], s["old"])
             jobs.append({"kind": "corpus", "name": "%s %s" % (s["name"], direction), "hw": s["hw"], "old": old, "new": new,
                          "acl": None})
+        if rng.random() < 0.35 and len(s["new"]) >= 2:
+            # the job hands a reference tracker to the patch step (definitions must be ordered before their references)
+            jobs.append({"kind": "corpus-ref", "name": "%s ref-tracked" % s["name"], "hw": s["hw"], "old": s["old"],
+                         "new": s["new"], "acl": None, "ref": True})
         # the same configurations on other hardware models of the vendor (rulebook templates branch on the model)
         for model in ALT_MODELS.get(s["vendor"], []):
             if rng.random() < 0.5:
@@ -182,7 +197,22 @@ def compute(job):
             acl = compile_acl_text(acl, job["hw"].vendor)
             old = patching.apply_acl(old, acl)
             new = patching.apply_acl(new, acl, exclusive=False)
-        diff, pt = api._diff_and_patch(d, old, new, acl, None, False)
+        ref_track = None
+        if job.get("ref"):
+            from collections import OrderedDict as _od
+            from annet.reference import RefTracker
+
+            class RefGen:
+                pass
+
+            class DefGen:
+                pass
+            rows = list(new.items())
+            ref_track = RefTracker()
+            ref_track.add(RefGen, DefGen)
+            ref_track.config(RefGen, _od(rows[:len(rows) // 2]))
+            ref_track.config(DefGen, _od(rows[len(rows) // 2:]))
+        diff, pt = api._diff_and_patch(d, old, new, acl, None, False, ref_track=ref_track)
         cmds = env.cmd_list(job["hw"], pt)
         ordered = env.canon_tree(patching.Orderer.from_hw(job["hw"]).order_config(job["new"]))
         return ("OK", cmds, env.canon_diff(diff), ordered)
